@@ -33,3 +33,19 @@ Definition ex_reg_docs : registry :=
   map (fun e => if N.eqb (fst e) 3
                 then (fst e, mk_ty (t_path (snd e)) (t_params (snd e)) (t_def (snd e)) ["other doc"])
                 else e) ex_reg.
+
+(** restriction: retain the entries reachable from [a::c::E] (ids 4, 2, 0, 1, 7); the
+    renumbering moves them to the front in their original order, the first 5 entries are kept;
+    dropped: [Wrap<u32>], the sequence and [a::Top] *)
+Definition ex_pi_keep_list : list N := [0; 1; 2; 5; 3; 6; 7; 4].
+Definition ex_pi_keep : N -> N := pi_of_list ex_pi_keep_list.
+Definition ex_keep_k : nat := 5.
+
+(** a recursive rule rooted at the retained [a::c::E] and a specific one for [a::b::Wrap] *)
+Definition ex_set_rec2 : settings :=
+  mk_settings "root" true
+              (mk_dreg (mk_derives [("Debug", ["Debug"]); ("Clone", ["Clone"])] [])
+                       [(ex_key ["a"; "b"; "Wrap"], mk_derives [("Eq", ["Eq"])] [])]
+                       [(ex_key ["a"; "c"; "E"], mk_derives [("Hash", ["Hash"])] [("# [x]", ["#"; "["; "x"; "]"])])])
+              [] None None (Some [":"; ":"; "parity"; ":"; ":"; "Compact"]) true
+              (ACustom [":"; ":"; "alloc"]).
